@@ -349,6 +349,64 @@ fn calls_for(group: &str, d: &Desc) -> Vec<Call> {
             });
         }
 
+        "sp_options_oracle" => {
+            // C08: a cutoff keeps exactly the entries with distance <= c (unchanged), a target is reported with the unrestricted distance (other reported
+            // nodes: a subset with unchanged values), with and without paths; distances by Floyd-Warshall over the description as in sp_oracle
+            if dd.edges.iter().any(|(_, _, w)| *w == Some(f64::MAX)) { return c; }
+            let n = dd.n;
+            let weighted = dd.edges.iter().any(|(_, _, w)| w.is_some());
+            let inf = f64::INFINITY;
+            let mut dist = vec![vec![inf; n]; n];
+            for i in 0..n { dist[i][i] = 0.0; }
+            for (u, v, w) in &dd.edges {
+                let x = w.unwrap_or(1.0);
+                if x < dist[*u][*v] { dist[*u][*v] = x; }
+                if !dd.directed && x < dist[*v][*u] { dist[*v][*u] = x; }
+            }
+            for k in 0..n { for i in 0..n { for j in 0..n { if dist[i][k] + dist[k][j] < dist[i][j] { dist[i][j] = dist[i][k] + dist[k][j]; } } } }
+            for (xi, x) in names.clone().into_iter().enumerate() {
+                // every distinct distance value from x and a value between / above them
+                let mut cuts: Vec<f64> = vec![];
+                for y in 0..n { let dv = dist[xi][y]; if dv != inf { for cv in [dv, dv + 0.25] { if !cuts.contains(&cv) { cuts.push(cv); } } } }
+                for with_paths in [false, true] {
+                    for first_only in [false, true] {
+                        if first_only && !with_paths { continue; }
+                        for cv in cuts.clone() {
+                            let dm = dist.clone();
+                            oracle!(format!("dijkstra::single_source(&g, {}, \"{}\", None, Some({:?}), {}, {})", weighted, x, cv, first_only, with_paths), move |g| {
+                                let r = match dijkstra::single_source(g, weighted, x, None, Some(cv), first_only, with_paths) { Ok(r) => r, Err(e) => return Err(format!("Err({:?})", e.kind)) };
+                                for y in 0..n {
+                                    match r.get(NAMES[y]) {
+                                        Some(info) => { if !(dm[xi][y] <= cv) { return Err(format!("{} reported at {} but its distance {} is above the cutoff", NAMES[y], info.distance, dm[xi][y])); }
+                                                        if info.distance != dm[xi][y] { return Err(format!("distance to {} is {}, the unrestricted search gives {}", NAMES[y], info.distance, dm[xi][y])); }
+                                                        if !with_paths && !info.paths.is_empty() { return Err(format!("paths to {} reported with with_paths=false", NAMES[y])); } }
+                                        None => if dm[xi][y] <= cv { return Err(format!("{} has distance {} <= cutoff but is not reported", NAMES[y], dm[xi][y])); },
+                                    }
+                                }
+                                Ok(())
+                            });
+                        }
+                        for (ti, t) in names.clone().into_iter().enumerate() {
+                            let dm = dist.clone();
+                            oracle!(format!("dijkstra::single_source(&g, {}, \"{}\", Some(\"{}\"), None, {}, {})", weighted, x, t, first_only, with_paths), move |g| {
+                                let r = match dijkstra::single_source(g, weighted, x, Some(t), None, first_only, with_paths) { Ok(r) => r, Err(e) => return Err(format!("Err({:?})", e.kind)) };
+                                match r.get(t) {
+                                    Some(info) => if info.distance != dm[xi][ti] { return Err(format!("distance to the target {} is {}, the unrestricted search gives {:?}", t, info.distance, dm[xi][ti])); },
+                                    None => if dm[xi][ti] != inf { return Err(format!("the target {} is reachable at {} but not reported", t, dm[xi][ti])); },
+                                }
+                                for y in 0..n {
+                                    if let Some(info) = r.get(NAMES[y]) {
+                                        if info.distance != dm[xi][y] { return Err(format!("with a target, distance to {} is {}, the unrestricted search gives {}", NAMES[y], info.distance, dm[xi][y])); }
+                                    }
+                                }
+                                Ok(())
+                            });
+                        }
+                    }
+                }
+            }
+        }
+
         "closeness_oracle" => {
             // closeness of x from the minimal distances TO x (Floyd-Warshall over the description), by the documented formula, same operation order
             if dd.edges.iter().any(|(_, _, w)| *w == Some(f64::MAX)) { return c; }
